@@ -274,8 +274,15 @@ def g_freeform(r):
         if r.random() < 0.2 and pts:
             pts.append(list(pts[0]))  # repeated vertex
         contours.append({"move": [v(), v()], "pts": pts, "close": r.random() < 0.7})
-    return {"sx": v(), "sy": v(), "scale": r.choice([1.0, 100.0, 914.4, 0.5, [2.0, 0.5], [1.0, 12700.0], [914.4, 914.4], 0.01]),
-            "contours": contours, "ox": r.choice([0, 0, r.randint(0, 5000000)]), "oy": r.choice([0, r.randint(0, 5000000)])}
+    ff = {"sx": v(), "sy": v(), "scale": r.choice([1.0, 100.0, 914.4, 0.5, [2.0, 0.5], [1.0, 12700.0], [914.4, 914.4], 0.01]),
+          "contours": contours, "ox": r.choice([0, 0, r.randint(0, 5000000)]), "oy": r.choice([0, r.randint(0, 5000000)])}
+    if r.random() < 0.3:
+        ff["peek"] = True      # read the builder's offsets before drawing anything
+    if r.random() < 0.3:
+        # the same builder is converted again after more segments were drawn (documented: may be called more than once)
+        ff["again"] = {"pts": [[v(), v()] for _ in range(r.randint(1, 3))], "close": r.random() < 0.5,
+                       "ox": r.randint(0, 3000000), "oy": r.randint(0, 3000000)}
+    return ff
 
 
 def _r(x):
@@ -286,6 +293,8 @@ def _do_freeform(w, shapes, ff, check=True):
     sc = ff["scale"]
     sx, sy = (sc if isinstance(sc, list) else (sc, sc))
     fb = shapes.build_freeform(ff["sx"], ff["sy"], scale=(sx, sy) if isinstance(sc, list) else sc)
+    if ff.get("peek"):
+        _ = (fb.shape_offset_x, fb.shape_offset_y)
     verts = [(_r(ff["sx"]), _r(ff["sy"]))]
     for i, c in enumerate(ff["contours"]):
         if i > 0:
@@ -296,6 +305,22 @@ def _do_freeform(w, shapes, ff, check=True):
     sp = fb.convert_to_shape(ff["ox"], ff["oy"])
     if not check:
         return sp
+    _check_freeform(w, sp, verts, sx, sy, sc, ff["ox"], ff["oy"])
+    if ff.get("again"):
+        ag = ff["again"]
+        fb.add_line_segments([tuple(p) for p in ag["pts"]], close=ag["close"])
+        verts = verts + [(_r(p[0]), _r(p[1])) for p in ag["pts"]]
+        sp2 = fb.convert_to_shape(ag["ox"], ag["oy"])
+        _check_freeform(w, sp2, verts, sx, sy, sc, ag["ox"], ag["oy"])
+        w.stats.hit("c17_freeform_builder_reused")
+    w.stats.hit("c17_freeforms")
+    if len(ff["contours"]) > 1:
+        w.stats.hit("c17_freeforms_multicontour")
+    return sp
+
+
+def _check_freeform(w, sp, verts, sx, sy, sc, ox, oy):
+    ff = {"ox": ox, "oy": oy}
     minx, maxx = min(v[0] for v in verts), max(v[0] for v in verts)
     miny, maxy = min(v[1] for v in verts), max(v[1] for v in verts)
     want = (ff["ox"] + minx * sx, ff["oy"] + miny * sy, (maxx - minx) * sx, (maxy - miny) * sy)
@@ -322,10 +347,6 @@ def _do_freeform(w, shapes, ff, check=True):
             if n != len(verts):
                 w.report("freeform|vertex-count", "path has %d points, %d vertices given" % (n, len(verts)), CLAUSES["freeform"])
         break
-    w.stats.hit("c17_freeforms")
-    if len(ff["contours"]) > 1:
-        w.stats.hit("c17_freeforms_multicontour")
-    return sp
 
 
 @O.op("c17.freeform", "c17", weight=3.0)
